@@ -13,6 +13,18 @@ pub mod vba { pub struct VbaError; }
 #[verifier::external_type_specification] #[verifier::external_body] pub struct ExIoError(std::io::Error);
 /// stand-in for cfb::XlsEncoding (wraps an encoding_rs table; only handed through to the string decoders)
 pub struct XlsEncoding { _opaque: u8 }
+/// what `XlsEncoding::decode_to` appends: the first `len` characters of `stream` decoded under the code page
+/// (`high_byte`: Some(true) = UTF-16LE code units, Some(false)/None = one byte per character)
+// TRUSTED: uninterpreted -- the decoders (cfb.rs XlsEncoding::decode_to on top of encoding_rs) are the subject of C12/C19, not of this unit.
+pub uninterp spec fn decoded_chars(enc: XlsEncoding, stream: Seq<u8>, len: int, high_byte: Option<bool>) -> Seq<char>;
+impl XlsEncoding {
+    // TRUSTED: stand-in for cfb.rs `XlsEncoding::decode_to` (signature copied; body is encoding_rs glue guarded by `min(stream.len(), len)`,
+    // it never panics and only appends to `s`).
+    #[verifier::external_body]
+    pub fn decode_to(&self, stream: &[u8], len: usize, s: &mut String, high_byte: Option<bool>) -> (usize, usize)
+        ensures final(s)@ == old(s)@ + decoded_chars(*self, stream@, len as int, high_byte),
+    { unimplemented!() }
+}
 
 //@@ item src/xls.rs enum XlsError cfg_off=picture
 //@@ item src/lib.rs enum CellErrorType keep_attrs
@@ -600,6 +612,15 @@ proof fn lemma_cont_frames_push(c: Seq<&[u8]>, d: &[u8])
     assert(c.push(d).last() == d);
 }
 
+// RecordIter makes no claim to vstd's prophetic-iterator laws (obeys = false, the other members are then irrelevant);
+// what it does is stated by the ensures of `next` below.
+impl<'a> vstd::std_specs::iter::IteratorSpecImpl for RecordIter<'a> {
+    open spec fn obeys_prophetic_iter_laws(&self) -> bool { false }
+    open spec fn remaining(&self) -> Seq<Result<Record<'a>, XlsError>> { Seq::empty() }
+    open spec fn will_return_none(&self) -> bool { false }
+    open spec fn decrease(&self) -> Option<nat> { None }
+    open spec fn peek(&self, i: int) -> Option<Result<Record<'a>, XlsError>> { None }
+}
 //@@ impl src/xls.rs "Iterator for RecordIter<'a>"
 //@@ item src/xls.rs impl_type "Iterator for RecordIter<'a>::type Item"
 //@@ fn src/xls.rs "Iterator for RecordIter<'a>::next" props=C02 entry ret=res
@@ -667,6 +688,127 @@ proof fn lemma_cont_frames_push(c: Seq<&[u8]>, d: &[u8])
                 }
 //@@ end
 //@@ endimpl
+
+// =====================================================================================================
+// C16: BOF and BoundSheet8
+// =====================================================================================================
+/// [MS-XLS] 2.4.21 BOF: vers (2 bytes) -- 0x0600 for BIFF8; 0x0500 BIFF5; older writers: 0x0400 / 0x0300 / 0x0200 (also 0x0002, 0x0007);
+/// dt (2 bytes). vers == 0 is settled by dt (0x1000 = BIFF5 workspace file), anything else is read as BIFF8.
+spec fn bof_biff(d: Seq<u8>) -> Biff {
+    let vers = u16_at(d, 0);
+    let dt = if d.len() >= 4 { u16_at(d, 2) } else { 0 };
+    if vers == 0x0600 { Biff::Biff8 }
+    else if vers == 0x0500 { Biff::Biff5 }
+    else if vers == 0x0400 { Biff::Biff4 }
+    else if vers == 0x0300 { Biff::Biff3 }
+    else if vers == 0x0200 || vers == 0x0002 || vers == 0x0007 { Biff::Biff2 }
+    else if vers == 0 && dt == 0x1000 { Biff::Biff5 }
+    else { Biff::Biff8 }
+}
+
+//@@ fn src/xls.rs parse_bof props=C16 entry ret=res
+//@@ sig
+    ensures
+        //# C16.bof_never_err
+        old(r).data@.len() >= 2 ==> res is Ok,
+        //# C16.bof_version
+        old(r).data@.len() >= 2 ==> res is Ok && res->Ok_0.biff == bof_biff(old(r).data@),
+        //# C16.bof_record_frame
+        *final(r) == *old(r),
+//@@ body
+    proof {
+        let d = old(r).data@;
+        if d.len() >= 2 { assert(d.subrange(0, 2)[0] == d[0] && d.subrange(0, 2)[1] == d[1]); }
+        if d.len() >= 4 { lemma_le_at(d, 2); }
+    }
+//@@ end
+
+/// [MS-XLS] 2.4.28 BoundSheet8: lbPlyPos (4 bytes): stream position of the sheet's BOF; hsState (2 bits) + unused (6 bits, MUST be ignored);
+/// dt (1 byte); stName (ShortXLUnicodeString)
+pub open spec fn bs8_pos(d: Seq<u8>) -> int { u32_at(d, 0) }
+pub open spec fn bs8_hs_state(d: Seq<u8>) -> u8 { d[4] & 0x03 }
+pub open spec fn bs8_dt(d: Seq<u8>) -> u8 { d[5] }
+/// hsState: 0 visible, 1 hidden, 2 very hidden (3 is undefined)
+pub open spec fn vis_of(hs: u8) -> Option<SheetVisible> {
+    if hs == 0 { Some(SheetVisible::Visible) } else if hs == 1 { Some(SheetVisible::Hidden) } else if hs == 2 { Some(SheetVisible::VeryHidden) } else { None }
+}
+/// dt: 0 worksheet or dialog sheet, 1 macro sheet, 2 chart sheet, 6 VBA module
+pub open spec fn kind_of(dt: u8) -> Option<SheetType> {
+    if dt == 0 { Some(SheetType::WorkSheet) } else if dt == 1 { Some(SheetType::MacroSheet) } else if dt == 2 { Some(SheetType::ChartSheet) }
+    else if dt == 6 { Some(SheetType::Vba) } else { None }
+}
+
+/// [MS-XLS] 2.5.240 ShortXLUnicodeString: cch (1 byte), then in BIFF8 a flags byte whose bit 0 is fHighByte, then the characters;
+/// BIFF5 and older have no flags byte
+pub open spec fn short_string_chars(d: Seq<u8>, encoding: XlsEncoding, biff: Biff) -> Seq<char> {
+    if biff is Biff8 { decoded_chars(encoding, d.skip(2), d[0] as int, Some(d[1] & 1 != 0)) }
+    else { decoded_chars(encoding, d.skip(1), d[0] as int, None) }
+}
+
+//@@ fn src/xls.rs parse_short_string props=C16 entry ret=res
+//@@ sig
+    ensures
+        //# C16.short_string_len_guard
+        old(r).data@.len() < 2 <==> res is Err,
+        //# C16.short_string_len_err
+        old(r).data@.len() < 2 ==> is_len_err(res, 2, old(r).data@.len() as int),
+        //# C16.short_string_value
+        res is Ok ==> res->Ok_0@ == short_string_chars(old(r).data@, *encoding, biff),
+        //# C16.short_string_record_frame
+        final(r).typ == old(r).typ && final(r).cont == old(r).cont,
+//@@ body
+    let ghost d0 = r.data@;
+//@@ before /let mut s = /
+    proof {
+        if biff is Biff8 { assert(r.data@ =~= d0.skip(2)); } else { assert(r.data@ =~= d0.skip(1)); }
+    }
+//@@ end
+
+// TRUSTED: String::with_capacity returns an empty string (alloc::string documentation; capacity is not observable)
+pub assume_specification[ String::with_capacity ](n: usize) -> (r: String)
+    ensures r@ == Seq::<char>::empty();
+// TRUSTED: String::retain keeps exactly the chars for which the predicate returns true, in order (alloc::string documentation)
+pub assume_specification<F: FnMut(char) -> bool>[ String::retain::<F> ](s: &mut String, f: F)
+    requires forall|c: char| call_requires(f, (c,)),
+    ensures forall|p: spec_fn(char) -> bool| (forall|c: char, k: bool| call_ensures(f, (c,), k) ==> k == p(c)) ==> final(s)@ == #[trigger] old(s)@.filter(p);
+
+pub open spec fn not_nul(c: char) -> bool { c != '\0' }
+
+//@@ fn src/xls.rs parse_sheet_metadata props=C16 entry ret=res
+//@@ sig
+    ensures
+        //# C16.sheet_position
+        res is Ok ==> res->Ok_0.0 as int == bs8_pos(old(r).data@),
+        //# C16.sheet_visibility
+        res is Ok ==> vis_of(bs8_hs_state(old(r).data@)) == Some(res->Ok_0.1.visible),
+        //# C16.sheet_kind
+        res is Ok ==> kind_of(bs8_dt(old(r).data@)) == Some(res->Ok_0.1.typ),
+        //# C16.sheet_name
+        res is Ok ==> res->Ok_0.1.name@ == short_string_chars(old(r).data@.skip(6), *encoding, biff).filter(|c: char| not_nul(c)),
+        //# C16.sheet_undefined_state_or_kind_rejected
+        old(r).data@.len() >= 6 && (vis_of(bs8_hs_state(old(r).data@)) is None || kind_of(bs8_dt(old(r).data@)) is None) ==> res is Err,
+        //# C16.sheet_hsstate_unused_bits_ignored
+        old(r).data@.len() >= 8 && vis_of(bs8_hs_state(old(r).data@)) is Some && kind_of(bs8_dt(old(r).data@)) is Some ==> res is Ok,
+//@@ body
+    let ghost d0 = r.data@;
+    proof { if d0.len() >= 4 { lemma_le_at(d0, 0); assert(d0.subrange(0, d0.len() as int) =~= d0); } }
+//@@ before /let visible = /
+    proof {
+        let b = d0[4];
+        assert(b & 0x3f == 0 ==> b & 0x03 == 0) by (bit_vector);
+        assert(b & 0x3f == 1 ==> b & 0x03 == 1) by (bit_vector);
+        assert(b & 0x3f == 2 ==> b & 0x03 == 2) by (bit_vector);
+        assert(b & 0x03 == 3 ==> b & 0x3f != 0 && b & 0x3f != 1 && b & 0x3f != 2) by (bit_vector);
+    }
+//@@ replace /\|c\| c != '\\0'/ closure annotated with its own (verified) ensures so that the retain contract can see which chars are kept; body unchanged
+|c: char| -> (keep: bool) ensures keep == not_nul(c) { c != '\0' }
+//@@ after /r\.data = &r\.data\[6\.\.\];/
+    proof { assert(r.data@ =~= d0.skip(6)); }
+//@@ before /name\.retain/
+    let ghost name0 = name@;
+//@@ before /Ok\(\(pos, /
+    proof { assert(name@ == name0.filter(|c: char| not_nul(c))); }
+//@@ end
 
 } // verus!
 fn main() {}
